@@ -56,6 +56,15 @@ def regex_inventory(ctx):
                         continue        # a regex handed in / built from the
                         #                 caller's arguments (analysed where
                         #                 the call is folded)
+                    if (is_unknown(pat) or not isinstance(pat, str)) and isinstance(n.args[0], ast.Name):
+                        # a pattern taken from a table that a for-loop walks
+                        vals = loop_values(ctx, fi, n.args[0], env)
+                        if vals and all(isinstance(v, str) for v in vals):
+                            for v in vals:
+                                rv = RegexVal(v, 0, name=f"{fi.qualname}:{v[:30]!r}", module=fi.module.name)
+                                out.append({'name': rv.name, 'full': fi.fullname, 'rv': rv,
+                                            'where': fi.fullname, 'kind': 'inline', 'node': n})
+                            continue
                     if is_unknown(pat) or not isinstance(pat, str):
                         out.append({'name': f"{fi.qualname}:{norm(n.args[0])[:40]}",
                                     'full': fi.fullname, 'rv': None,
@@ -768,3 +777,53 @@ def mixed_pop_ends(ctx, funcs, rule='ORDER'):
                               f"items the later ones are used in reversed order (keys / levels no longer line up with the list given)",
                               key=f"{rule}|{fi.qualname}|pop-ends|{name}", where=loc(fi, c))
     return n
+
+
+
+def loop_values(ctx, fi, name_node, env=None):
+    """Values a Name takes when it is bound by an enclosing `for` over a
+    sequence that folds to constants (a table of patterns / pairs)."""
+    env = env if env is not None else ctx.fold.func_env(fi)
+    p = parent(name_node)
+    while p is not None and p is not fi.node:
+        if isinstance(p, ast.For):
+            tg = p.target
+            idx = None
+            if isinstance(tg, ast.Name) and tg.id == name_node.id:
+                idx = ()
+            elif isinstance(tg, (ast.Tuple, ast.List)):
+                for i, e in enumerate(tg.elts):
+                    if isinstance(e, ast.Name) and e.id == name_node.id:
+                        idx = (i,)
+            if idx is not None:
+                seq = ctx.fold.eval(p.iter, env, fi.module.name)
+                if isinstance(seq, dict):
+                    seq = list(seq.items()) if idx else list(seq)
+                if isinstance(seq, (list, tuple)):
+                    try:
+                        return [el[idx[0]] if idx else el for el in seq]
+                    except (TypeError, IndexError):
+                        return None
+                return None
+        p = parent(p)
+    return None
+
+
+def sub_pairs(ctx, fi):
+    """(pattern, replacement, call node) of every `re.sub(<const>, <const>, ...)`
+    in ``fi``, including calls driven by a table a for-loop walks."""
+    env = ctx.fold.func_env(fi)
+    out = []
+    for c in walk_local(fi.node):
+        if not (isinstance(c, ast.Call) and (dotted(c.func) or '') == 're.sub' and len(c.args) >= 2):
+            continue
+        p_ = ctx.fold.eval(c.args[0], env, fi.module.name)
+        r_ = ctx.fold.eval(c.args[1], env, fi.module.name)
+        if isinstance(p_, str) and isinstance(r_, str):
+            out.append((p_, r_, c))
+            continue
+        if isinstance(c.args[0], ast.Name) and isinstance(c.args[1], ast.Name):
+            ps, rs = loop_values(ctx, fi, c.args[0], env), loop_values(ctx, fi, c.args[1], env)
+            if ps and rs and len(ps) == len(rs) and all(isinstance(x, str) for x in ps + rs):
+                out.extend((a, b, c) for a, b in zip(ps, rs))
+    return out
